@@ -44,6 +44,11 @@ def run(prog: Program, rep, tier: str) -> None:
     refresh_schedule(prog, rep)
     dispatch(prog, rep)
     standard_solver(prog, rep)
+    asymmetric_structure(prog, rep)
+    # the active-set estimate must be the same function in the scaled and the unscaled residual (lambda * ...): C13's sibling rules
+    from . import c13
+    from .c01 import _SubReport
+    c13.implicit_funcs(prog, _SubReport(rep, keep=("sibling-scaled", "formula-projection_initial")))
 
 
 # ---------------------------------------------------------------------------------------------------
@@ -461,3 +466,41 @@ def standard_solver(prog: Program, rep) -> None:
     st = {U(t): U(x.value) for x in own_nodes(ud.node) if isinstance(x, ast.Assign) for t in x.targets}
     ok = st.get("self._jac") == f"copy.copy({itq}.aug_lag_deriv_xy())"
     rep.check(ok, "standard-solver-wiring", ud.qualname, "self._jac", "the Jacobian block is the constraint Jacobian of the same iterate", ud.loc())
+
+
+def asymmetric_structure(prog: Program, rep) -> None:
+    """producer / consumer agreement inside AsymmetricStepSolver: overwrite_active_rows walks indptr/indices as ROWS, so the block
+    matrix must be assembled in CSR; the active rows become identity rows and the right-hand side carries b0 there."""
+    q = "pygradflow.step.solver.asymmetric_step_solver.AsymmetricStepSolver"
+    cd = prog.func(q + ".compute_deriv")
+    ff = facts_for(cd)
+    bm = [n for n in own_nodes(cd.node) if isinstance(n, ast.Call) and (dotted(n.func) or "").endswith("sparse.bmat")]
+    if len(bm) != 1:
+        raise AnalysisError("AsymmetricStepSolver.compute_deriv: expected one bmat call")
+    fmt = kwarg(bm[0], "format")
+    ow = prog.func(q + ".overwrite_active_rows")
+    uses_rows = any(isinstance(n, ast.Attribute) and n.attr == "indptr" for n in own_nodes(ow.node))
+    loop_over_n = any(isinstance(n, ast.For) and isinstance(n.iter, ast.Call) and dotted(n.iter.func) == "range" and U(n.iter.args[0]) in ("n", "self.n") for n in own_nodes(ow.node))
+    rep.check(isinstance(fmt, ast.Constant) and fmt.value == "csr" and uses_rows and loop_over_n, "asymmetric-row-format", cd.qualname, U(bm[0])[:80],
+              f"the matrix whose ACTIVE ROWS are overwritten through indptr/indices is assembled in CSR (found format={U(fmt) if fmt is not None else None})", cd.loc(bm[0]))
+    si = ff.stmt_of(bm[0])
+    blocks = bm[0].args[0] if bm[0].args else None
+    ok = False
+    if isinstance(blocks, ast.List) and len(blocks.elts) == 2:
+        r0, r1 = blocks.elts
+        if len(r0.elts) == 2 and len(r1.elts) == 2:
+            t = [U(ff.resolved(si.stmt, e)) for e in (r0.elts[0], r0.elts[1], r1.elts[0], r1.elts[1])]
+            ok = t[1] == "self.jac.T" and t[2] == "self.jac" and "sparse.diags" in t[3] and "self.hess" in t[0] and "sparse.diags" in t[0]
+    rep.check(ok, "asymmetric-blocks", cd.qualname, U(blocks)[:80] if blocks is not None else "", "the asymmetric system is [[H + lambda I, J'], [J, -lambda/(1+lambda rho) I]] before the active rows are replaced", cd.loc(bm[0]))
+    calls = [n for n in own_nodes(cd.node) if isinstance(n, ast.Call) and U(n.func) == "self.overwrite_active_rows"]
+    rep.check(len(calls) == 1 and U(calls[0].args[0]) == U(ff.stmt_of(bm[0]).stmt.targets[0]), "asymmetric-blocks", cd.qualname, "overwrite_active_rows(deriv)",
+              "the active rows of that matrix are replaced by identity rows", cd.loc())
+    # identity rows: data[:] = 0, data[k] = 1 at column j
+    stores = [U(n) for n in own_nodes(ow.node) if isinstance(n, ast.Assign) and isinstance(n.targets[0], ast.Subscript)]
+    ok = "curr_data[:] = 0.0" in stores and "curr_data[k] = 1.0" in stores and any(isinstance(n, ast.Call) and (dotted(n.func) or "") == "np.searchsorted" and [U(a) for a in n.args] == ["curr_cols", "j"] for n in own_nodes(ow.node))
+    rep.check(ok, "asymmetric-blocks", ow.qualname, "identity rows", "row j of an active variable becomes e_j (all stored entries zeroed, the diagonal entry set to one)", ow.loc())
+    cr = prog.func(q + ".compute_rhs")
+    st = [U(n) for n in own_nodes(cr.node) if isinstance(n, ast.Assign) and isinstance(n.targets[0], ast.Subscript)]
+    b0, b1, b2t = [p for p in cr.params if p != "self"][:3]
+    ok = f"rhs[-m:] = {b2t}" in st and f"var_rhs[active_set] = {b0}" in st and f"var_rhs[np.logical_not(active_set)] = {b1}" in st
+    rep.check(ok, "asymmetric-blocks", cr.qualname, "rhs", "the right-hand side carries b0 on the active rows, b1 on the inactive ones and b2t on the constraint rows", cr.loc())
